@@ -26,7 +26,7 @@ theorem topsInv_step (P : Program) (F : Flags) (n : Nat) (c : Config) (l : Label
         rw [e]; rfl
     refine ⟨by rw [hnc, hn], ?_⟩
     intro k' id hlk
-    rcases hcase with ⟨k0, _, _, htops, _⟩ | ⟨_, _, _, _, _, _, htops, _⟩
+    rcases hcase with ⟨k0, _, _, htops, _⟩ | ⟨_, _, _, _, _, _, htops, _, _⟩
     · rw [htops] at hlk
       by_cases hk : k' = k0
       · subst hk
